@@ -104,7 +104,8 @@ inductive Refresh where
   | absent | normal | enhanced
 deriving DecidableEq, Repr
 
-/-- `Negotiated.multisession`: False / True / an error tuple; `crash` = a `KeyError` escapes. -/
+/-- `Negotiated.multisession`: False / True / an error tuple (`crash`, a `KeyError` out of `_negotiate`, was an outcome
+    until the repair of F97; the constructor stays for the driver's vocabulary and is no longer produced). -/
 inductive MS where
   | no | yes | err (code sub : Nat) | crash
 deriving DecidableEq, Repr
@@ -169,11 +170,10 @@ def negotiateSets (oursAs oursHold theirsAs theirsHold : Nat) (s r : CapSet) : N
         (s.pathsLimit.getD []).filter (fun e => (AList.keys apS).contains e.1 && receive e.1) else []
     multisession :=
       if ms then
-        -- `sent_capa[MULTISESSION]`, `recv_capa[MULTISESSION]`, then `sent_capa[1] != recv_capa[1]`
-        if !(s.multisession && r.multisession) then .crash
-        else match r.mp with
-          | none => .crash
-          | some rm => if s.mp.getD [] ≠ rm then .err 2 8 else .yes
+        -- `sent_capa.get(MULTIPROTOCOL) != recv_capa.get(MULTIPROTOCOL)` (the session is identified by its
+        -- MULTIPROTOCOL capability; since /repo F97 a capability the peer did not send is a mismatch, not a KeyError)
+        -- (ours is the object `Capabilities.new` built: it always has a MULTIPROTOCOL entry, empty without families)
+        if some (s.mp.getD []) ≠ r.mp then .err 2 8 else .yes
       else if s.multisession then .err 2 9 else .no }
 
 def negotiate (ours theirs : OpenMsg) : Negotiated :=
